@@ -20,7 +20,7 @@ CASE_TIMEOUT = 60
 def mk(rng, a, k, vals, fam, opt=None, **kw):
     if a == "multifit" and rng.random() < 0.3:
         kw["iterations"] = rng.choice([3, 5, 17])
-    u = part_unit(a, k, vals, rng, fmt=rng.choice(["list", "list", "dict_str", "array"]), out="pst", cmp="sums", family=fam, **kw)
+    u = part_unit(a, k, vals, rng, fmt=rng.choice(["list", "list", "dict_str", "array", "dict_valueof"]), out="pst", cmp="sums", family=fam, **kw)
     if opt is not None:
         u["opt"] = opt
     return u
